@@ -15,7 +15,8 @@ META = {
     "level": "exploration",
     "rule": ("case = history of store calls (JSON); distinct by JSON; non-trivial when it has >= 4 applied mutating "
              "calls and reaches a state with a multi-linked port or a freed index"),
-    "required": ["monitor:lockstep-step", "monitor:invariant", "cases:exhaustive", "cases:random",
+    "required": ["monitor:lockstep-step", "monitor:invariant", "cases:exhaustive", "cases:random", "cases:program",
+                 "monitor:repo-tests-under-contracts",
                  "feature:multi-linked-port", "feature:index-reuse", "feature:delete-middle-of-fanout",
                  "feature:insert_hugr", "feature:delete-node-with-order-link", "feature:parallel-duplicate-link"],
     "reach": ["hugr.hugr.base:Hugr._add_node", "hugr.hugr.base:Hugr.add_link", "hugr.hugr.base:Hugr.delete_link",
@@ -103,6 +104,75 @@ def lockstep(ctx, hist, stratum):
     return info["applied"] >= 4 and (info["multi"] or info["reuse"])
 
 
+def program_stratum(ctx):
+    """every HUGR a builder program builds is a history for the store: walk the structural invariant
+    (and the BiMap inverse property, reported to C18) after every interpreted statement"""
+    from vf.gen.prog import gen_program
+    from vf.interp import Interp
+    from vf.oracles import store
+
+    for i in ctx.mine(ctx.n(300, 8000)):
+        r = ctx.rng("program", i)
+        p = gen_program(r, budget=30)
+
+        def hook(h, p=p):
+            ctx.count("monitor:invariant")
+            store.invariant(h, lambda q, exp, obs: ctx.disc(
+                None, f"invariant[{q}]", "builder program", exp, obs, stratum="program", case=p))
+            links = getattr(h, "_links", None)
+            if links is not None and hasattr(links, "fwd") and hasattr(links, "bck"):
+                ctx.count("cross:C18-bimap-inverse")
+                if links.bck != {v: k for k, v in links.fwd.items()}:
+                    ctx.disc(None, "bimap-not-inverse", "Hugr._links under a builder program", "bck == inverse(fwd)",
+                             "differs", stratum="program", case=p, prop="C18")
+
+        def go():
+            it = Interp(hook=hook)
+            h = it.run(p)
+            # final agreement of the public link queries with each other
+            o = store.observe(h)
+            out = {}
+            for (s, so, t, to), c in o["links"].items():
+                out.setdefault((s, so), {}).setdefault((t, to), 0)
+                out[(s, so)][(t, to)] += c
+            got = {k: dict(v) for k, v in o["out"].items()}
+            if got != out:
+                ctx.disc(None, "query[links() vs linked_ports]", "builder program", "agree", "disagree",
+                         stratum="program", case=p)
+
+        ctx.guard("program", p, go)
+        ctx.case("program", p, True)
+
+
+def repo_tests_under_contracts(ctx):
+    import json
+    import os
+    import subprocess
+    import sys
+
+    from vf import env
+
+    log = os.path.abspath(os.path.join(os.environ.get("PYTHONPYCACHEPREFIX", "/var/tmp"), "..", "contracts.json"))
+    e = dict(os.environ)
+    e["VERIF_CONTRACT_LOG"] = log
+    e["PYTHONPATH"] = os.pathsep.join([str(env.SRC), str(env.VERIF / "tools"), str(env.VERIF), str(env.DEPS)])
+    e["HUGR_BIN"] = str(env.VERIF / "tools" / "hugr-validate-shim")
+    subprocess.run([sys.executable, "-B", "-m", "pytest", "-q", "--no-header", "-p", "no:cacheprovider",
+                    "-p", "pytest_snapshot_stub", "-p", "pytest_verif_contracts", "-o", "addopts=",
+                    "--continue-on-collection-errors", str(env.REPO / "hugr-py" / "tests")],
+                   cwd=str(env.REPO / "hugr-py"), env=e, capture_output=True, text=True, timeout=600)
+    if not os.path.exists(log):
+        ctx.notes.append("repo tests under contracts produced no log")
+        return
+    rec = json.load(open(log))
+    ctx.count("monitor:repo-tests-under-contracts", rec["store_evals"])
+    ctx.count("cross:C18-bimap-inverse", rec["bimap_evals"])
+    for v in rec["violations"][:10]:
+        ctx.disc(None, f"contract[{v['contract']}]", v["where"], "contract holds while the repo's tests run",
+                 v["detail"], stratum="repo-tests", case={"test": v.get("test")},
+                 prop="C18" if v["contract"] == "BiMap" else None)
+
+
 def alphabet():
     """steps over root(0) and two pre-created children A(1), B(2)"""
     al = []
@@ -138,6 +208,9 @@ def run(ctx):
     ctx.extra["exhaustive_subspace"] = (
         f"all histories of length <= {maxlen} over {len(al)} steps on 2 pre-created nodes + root "
         f"({sum(len(al) ** n for n in range(1, maxlen + 1))} histories)")
+    ctx.guard("program", None, program_stratum, ctx)
+    if ctx.shard == 2 % ctx.nshards:
+        ctx.guard("repo-tests", None, repo_tests_under_contracts, ctx)
     for i in ctx.mine(ctx.n(4000, 150000)):
         r = ctx.rng("random", i)
         hist = gen_history(r, max_steps=ctx.n(30, 80), max_nodes=ctx.n(8, 10), metadata=True)
@@ -146,4 +219,12 @@ def run(ctx):
 
 
 def replay(ctx, rec):
+    if rec.get("stratum") in ("program", "repo-tests"):
+        from vf.interp import Interp
+        from vf.oracles import store
+
+        if rec.get("stratum") == "program":
+            Interp(hook=lambda h: store.invariant(h, lambda q, e, o: ctx.disc(
+                None, f"invariant[{q}]", "builder program", e, o, stratum="program", case=rec["case"]))).run(rec["case"])
+        return
     lockstep(ctx, rec["case"], rec.get("stratum") or "random")
